@@ -80,7 +80,7 @@ pub proof fn lemma_mm_post(f: Seq<GTree>)
     lemma_mm_pairs_sized(f);
 }
 
-//@fn id=merge_markers file=code/remover.rs name=merge_markers in="impl Remover" props=C01,C02,C03,C04,C12,C15
+//@fn id=merge_markers file=code/remover.rs name=merge_markers in="impl Remover" props=C01,C02,C03,C04,C12,C15,C14
 //@ret r
 //@requires
     exists|lo: int, hi: int| wf_forest(vf(ranges@), lo, hi),
